@@ -24,27 +24,26 @@ import vlib
 THEOREMS = [
     # K per kernel
     "cmp_pointwise", "and_pointwise", "or_pointwise", "or_regression",
-    "not_pointwise", "select_pointwise", "arith_pointwise_partial", "div_pointwise_partial",
-    "arith_add_pointwise_unsound", "rem_pointwise", "rem_zero_is_null", "rem_null_slot_faults",
-    "div_null_slot_faults",
+    "not_pointwise", "select_pointwise", "arith_pointwise", "arith_slot_plain", "arith_slot_safened",
+    "arith_regression",
     # raw invariant
     "cmp_raw_invariant", "or_raw_invariant", "not_raw_invariant", "and_raw_invariant_partial",
     "raw_invariant_unsound", "filter_uses_raw_bits_partial", "filter_uses_raw_bits_unsound",
     # faults / overflow
-    "null_slot_never_faults_unsound", "cmp_null_slot_never_faults", "and_null_slot_never_faults",
-    "overflow_is_error_unsound",
+    "null_slot_never_faults", "cmp_null_slot_never_faults", "and_null_slot_never_faults",
+    "overflow_is_error",
     # batch independence
     "batch_independent_binary", "batch_independent_arith", "batch_independent_or",
     "batch_independent_and", "batch_independent_cmp",
     # reason tags = forced hypotheses (node level); casts; IS NULL
-    "arith_no_tag", "select_abs", "select_abs_bool", "select_abs_str", "cast_pointwise", "isnull_pointwise",
+    "select_abs", "select_abs_bool", "select_abs_str", "cast_pointwise", "isnull_pointwise",
     # whole expression trees
     "evalK_len", "eval_tree_pointwise", "like_abs", "substring_abs", "replace_abs", "repeat_abs",
     "concat_abs", "neg_abs",
     # LIKE
     "like_pointwise", "like_regression",
     # constant folding
-    "fold_regression", "fold_rem_zero_is_null", "fold_overflow_panics",
+    "fold_regression", "fold_rem_zero_is_null", "fold_overflow_unknown",
     "fold_cast_out_of_range_unknown", "const_of_get0", "foldBin_sound", "foldUn_sound",
     "fold_eq_eval", "and_fold_value", "or_fold_value", "arith_strict", "cmp_strict", "concat_strict", "neg_strict", "not_strict",
 ]
@@ -52,12 +51,12 @@ THEOREMS = [
 # The witnesses of the `…_unsound` theorems, as requests (replayed on the implementation).
 WITNESSES = [
     ("or_regression", "(k 1 (or #0 #1) (bool nt) (bool vf))"),
-    ("arith_add_pointwise_unsound", "(k 1 (+ #0 #1) (i32 n2147483647) (i32 v1))"),
-    ("null_slot_never_faults_unsound", "(k 2 (+ #0 #1) (i32 v1 n2147483647) (i32 v2 v1))"),
-    ("rem_zero_is_null", "(k 2 (% #0 #1) (i32 v1 v7) (i32 v0 n0))"),
-    ("rem_null_slot_faults", "(k 1 (% #0 #1) (i32 v-2147483648) (i32 n-1))"),
-    ("div_null_slot_faults", "(k 1 (/ #0 #1) (i32 v-2147483648) (i32 n-1))"),
-    ("overflow_is_error_unsound", "(k 1 (+ #0 #1) (i32 v2147483647) (i32 v1))"),
+    ("arith_regression", "(k 1 (+ #0 #1) (i32 n2147483647) (i32 v1))"),
+    ("null_slot_never_faults", "(k 2 (+ #0 #1) (i32 v1 n2147483647) (i32 v2 v1))"),
+    ("arith_regression", "(k 2 (% #0 #1) (i32 v1 v7) (i32 v0 n0))"),
+    ("arith_regression", "(k 1 (% #0 #1) (i32 v-2147483648) (i32 n-1))"),
+    ("arith_regression", "(k 1 (/ #0 #1) (i32 v-2147483648) (i32 n-1))"),
+    ("overflow_is_error", "(k 1 (+ #0 #1) (i32 v2147483647) (i32 v1))"),
     ("raw_invariant_unsound", "(e 2 (or (cast BOOLEAN (+ #0 i32:5)) #1) (i32 v1 n0) (bool vf vf))"),
     ("filter_uses_raw_bits_unsound", "(e 1 (or (cast BOOLEAN #0) b:false) (i32 n5))"),
 ]
@@ -108,7 +107,12 @@ def classify_fold(req, impl_line, model_line):
     if so != "-" and not symbolic_null and not (so == sn or (not so.startswith("ok") and not sn.startswith("ok"))):
         problems.append("optimizer-on!=off")
         if fold == "none" and not tags:
-            tags = ["optimizer:rule-over-symbolic-null"]
+            if so.startswith("ok") and not sn.startswith("ok") and not rt.startswith("ok"):
+                # direct evaluation fails (overflow / failed cast in some subexpression), the optimised
+                # plan returns a value: rewriting removed or reordered the failing subexpression
+                tags = ["optimizer:removes-runtime-error"]
+            else:
+                tags = ["optimizer:on-off-differs"]
     return {"kind": "fold", "impl": impl_line, "model": model_line, "tags": tags, "problems": problems,
             "model_eq_impl": ip[0] == mp[0] and ip[1] == mp[1]}
 
